@@ -64,3 +64,41 @@ package commitgraph
 //gvc:  results hashes err
 //gvc:  loop 1 invariant pos: it1 >= 0
 //gvc:end
+
+// Generation-data overflow (git commit-graph.c write_graph_chunk_generation_data
+// / GENERATION_NUMBER_V2_OFFSET_MAX): a corrected-date offset above 2^31 - 1 is
+// written as an index into the overflow chunk. The chunk table is sized by
+// prepare and filled by encodeGenerationV2Data: both must count the same
+// offsets, or the file has a missing or too-short GDO2 chunk.
+// #gv2off: the offset GenerationV2Data() returns for a commit (trusted: a pure
+// function of the commit data).
+//gvc:ghost CommitData.gv2off nat
+
+//gvc:func (*CommitData).GenerationV2Data
+//gvc:  trusted
+//gvc:  params c
+//gvc:  ensures result == c.#gv2off
+//gvc:end
+
+//gvc:func (*Encoder).prepare
+//gvc:  props C51
+//gvc:  theory int
+//gvc:  opt coarse
+//gvc:  opt frame args
+//gvc:  opt assume_no_overflow
+//gvc:  loop 1 invariant pos: it1 >= 0
+//gvc:  loop 2 invariant pos: i >= 1
+//gvc:  loop 3 invariant pos: it3 >= 0
+//gvc:  loop 3 step counted: generationV2OverflowCount == head(generationV2OverflowCount) + ite(hasGenerationV2 && spec_gda_overflows(v.#gv2off), 1, 0)
+//gvc:end
+
+//gvc:func (*Encoder).encodeGenerationV2Data
+//gvc:  props C51
+//gvc:  theory int
+//gvc:  opt coarse
+//gvc:  opt frame args
+//gvc:  opt assume_no_overflow
+//gvc:  loop 1 invariant compact: 0 <= head && head <= it1
+//gvc:  loop 1 step moved: head == head(head) + ite(spec_gda_overflows(data), 1, 0)
+//gvc:  sink WriteUint32 requires form: ite(spec_gda_overflows(data), arg1 >= 0x80000000, arg1 == data)
+//gvc:end
